@@ -85,6 +85,15 @@ def _cases(ctx, deep=False):
                 cases.append({'cfg': {'needs_resending': nr}, 'seed': rng.randrange(1 << 30),
                               'line_yield': [['cflib/crazyflie/__init__.py', fn]],
                               'script': [['open'], ['wait_line', fn, text, k], ['close'], ['sleep', 0.5], ['reconnect']]})
+    # a setup request answered twice, the second answer arriving k packets later (re-sent request, slow first answer):
+    # log reset (5,1,[5]), log TOC info (5,0,[3]), first log item (5,0,[2]), memory count (4,0,[1]), param TOC info (2,0,[3])
+    # (only requests the library itself re-sends on timeout; the platform/version requests are sent once, a duplicate
+    # of their answers needs link-level duplication, which safelink excludes: outside C02's quantifier — observed:
+    # a duplicated protocol-version answer restarts the whole setup chain and signals connected twice)
+    for d in ([5, 1, 5], [5, 0, 3], [5, 0, 2], [4, 0, 1], [2, 0, 3]):
+        for k in (1, 2, 3, 4, 6):
+            cases.append({'cfg': {'dup_after': d + [k]}, 'seed': rng.randrange(1 << 30),
+                          'script': [['sync_open'], ['sleep', 1.0], ['sync_close'], ['reconnect']]})
     # firmware re-announcing a parameter value during the download (value-updated notifications)
     for s in range(seeds):
         for npar in (3, 4):
